@@ -759,6 +759,24 @@ fn to_list(ctx: &Context, top: &Number, list: &[&str]) -> Result<Vec<NumberParts
         .collect())
 }
 
+/// Whether a temperature scale operator (`degC` and friends) occurs
+/// anywhere in the expression.
+fn uses_temperature_scale(expr: &Expr) -> bool {
+    match *expr {
+        Expr::UnaryOp(ref unaryop) => match unaryop.op {
+            UnaryOpType::Degree(_) => true,
+            _ => uses_temperature_scale(&unaryop.expr),
+        },
+        Expr::BinOp(ref binop) => {
+            uses_temperature_scale(&binop.left) || uses_temperature_scale(&binop.right)
+        }
+        Expr::Mul { ref exprs } => exprs.iter().any(uses_temperature_scale),
+        Expr::Of { ref expr, .. } => uses_temperature_scale(expr),
+        Expr::Call { ref args, .. } => args.iter().any(uses_temperature_scale),
+        _ => false,
+    }
+}
+
 /// Returns true if this unit has a definition that can be shown. Units
 /// with prefixes can't be.
 fn can_show_definition(ctx: &Context, name: &str) -> bool {
@@ -939,6 +957,14 @@ pub(crate) fn eval_query(ctx: &Context, expr: &Query) -> Result<QueryReply, Quer
             Ok(QueryReply::Conversion(Box::new(ConversionReply {
                 value: parts,
             })))
+        }
+        // `eval_unit_name` refuses a scale among the factors of the target,
+        // but it does not look into exponents, `of` operands or the right
+        // hand side of `name = ...`.
+        Query::Convert(_, Conversion::Expr(ref bottom), _, _) if uses_temperature_scale(bottom) => {
+            Err(QueryError::generic(
+                "Temperature conversions must not be compound units".to_string(),
+            ))
         }
         Query::Convert(ref top, Conversion::Expr(ref bottom), base, digits) => match (
             eval_expr(ctx, top)?,
